@@ -276,10 +276,11 @@ conf.registerGlobalValue(conf.supybot.log, 'timestampFormat',
 
 class BooleanRequiredFalseOnWindows(registry.Boolean):
     """Value cannot be true on Windows"""
-    def set(self, s):
-        registry.Boolean.set(self, s)
-        if self.value and os.name == 'nt':
+    def setValue(self, v):
+        # Reject it before it is stored, not after.
+        if v and os.name == 'nt':
             self.error()
+        registry.Boolean.setValue(self, v)
 
 conf.registerGlobalValue(conf.supybot.log, 'stdout',
     registry.Boolean(True, """Determines whether the bot will log to
